@@ -68,7 +68,7 @@ struct Case {
   vsched::Config sc;
   uint64_t dataseed;
 };
-const char *KIND[] = {"real-enc", "real-dec", "real-verify", "tag-enc", "tag-dec", "forged-dec", "enc-eio", "dec-eio", "enc-enospc", "dec-enospc"};
+const char *KIND[] = {"real-enc", "real-dec", "real-verify", "tag-enc", "tag-dec", "forged-dec", "enc-eio", "dec-eio", "enc-enospc", "dec-enospc", "enc-then-dec"};
 const char *STRAT[] = {"uniform", "sticky", "pct", "starve"};
 
 std::string case_json(const Case &c, long long idx) {
@@ -100,8 +100,8 @@ Case make_case(uint64_t seed, long long idx, const std::string &grid, bool thoro
     case 2: c.n = chunks * ch + ch - 1 - r.below(16); break;          // padded length == multiple of chunk
     default: c.n = chunks * ch + r.below(ch); break;
     }
-    int k = (int)r.below(10);
-    c.kind = k < 3 ? 0 : k < 6 ? 1 : k < 8 ? 3 : 4;
+    int k = (int)r.below(11);
+    c.kind = k < 3 ? 0 : k < 6 ? 1 : k < 8 ? 3 : k < 10 ? 4 : 10;
   }
   if (c.kind == 3 || c.kind == 4) c.n = (c.n / 16) * 16; // tagging streams work on whole blocks
   if (c.kind == 4 && c.n == 0) c.n = 16;   // an empty body is outside the domain of decryption
@@ -133,7 +133,22 @@ std::string run_case(const Case &c) {
   vsched::init(c.sc, failfn);
   vsched::install_cpu_handler();
   bool ret = true;
-  if (c.kind == 8 || c.kind == 9) {
+  if (c.kind == 10) {
+    // two pipeline runs in ONE process under the scheduler (the second meets whatever the first left in statics)
+    ops::EncParams ep;
+    ep.cmode = c.cmode; ep.hmode = c.hmode; ep.T = c.T;
+    memcpy(ep.key, key, 16);
+    ep.seed = seed;
+    bytes F = ref::wenc_reference(P, key, c.cmode, c.hmode, seed.data(), seed.size(), c.T, ch);
+    ops::Result e = ops::encrypt(P, ep);
+    if (!e.ret) out_viol.push_back({"encrypt-returned-false", ""});
+    else if (e.out != F) out_viol.push_back({"enc-output-bytes-differ", ""});
+    ops::Result d = ops::decrypt(F, key, c.T);
+    vsched::finish();
+    ret = d.ret;
+    if (!d.ret) out_viol.push_back({"second-operation|decrypt-returned-false", ""});
+    else if (d.out != P) out_viol.push_back({"second-operation|dec-output-differs", ""});
+  } else if (c.kind == 8 || c.kind == 9) {
     // the OUTPUT stream starts failing with ENOSPC at its k-th write (disk full, unbuffered so that the error surfaces
     // while other chunks are still in flight): failure is the right result, but the operation must return
     ops::EncParams ep;
